@@ -11,6 +11,7 @@
  * options: nes=0..2   cfg=0..5 (scheduler / pool configuration)  freq=N (event_freq)
  */
 #include "drv.h"
+#include "abti.h"
 
 #define MAXU 12
 #define MAXS 6
@@ -447,9 +448,19 @@ static void serve(int who)
 static void sample_blocked(const char *tag)
 {
     for (int e = 0; e < g_nes; e++) {
-        size_t ts = 0, s = 0;
-        CHK(ABT_pool_get_total_size(g_pool[e][0], &ts));
-        CHK(ABT_pool_get_size(g_pool[e][0], &s));
+        /* one snapshot of both sizes: no hand-over in between (serialized mode); when
+         * free-running, only a pair of values that stayed stable is reported */
+        size_t ts = 0, s = 0, ts2 = 1, s2 = 1;
+        abtv_atomic_begin();
+        for (int tries = 0; tries < 50 && (ts != ts2 || s != s2); tries++) {
+            CHK(ABT_pool_get_total_size(g_pool[e][0], &ts));
+            CHK(ABT_pool_get_size(g_pool[e][0], &s));
+            CHK(ABT_pool_get_total_size(g_pool[e][0], &ts2));
+            CHK(ABT_pool_get_size(g_pool[e][0], &s2));
+        }
+        abtv_atomic_end();
+        if (ts != ts2 || s != s2)
+            continue;
         EV("\"e\":\"Blocked\",\"tag\":\"%s\",\"p\":%d,\"n\":%d,\"size\":%d", tag, e, (int)ts - (int)s, (int)s);
     }
 }
@@ -835,6 +846,7 @@ typedef struct {
     volatile int stt;
     ABT_thread th;
     volatile int claim;
+    volatile int gen; /* incremented every time the unit blocks */
 } sw_t;
 static sw_t SW[SW_PRIMARY + 1];
 static int g_nsw, g_sw_budget, g_sw_creates;
@@ -954,6 +966,7 @@ static int sw_step(sw_t *me)
                 me->stt = S_BLOCKED;
                 me->plain = 0;
                 me->claim = 0;
+                me->gen++;
                 EV("\"e\":\"Prim\",\"u\":%d,\"op\":\"suspend_to\",\"t\":%d,\"arg\":0", me->id, T->id);
                 CHK(CC1(me->id, PK_SUSPEND_TO, T->th));
             } else {
@@ -988,6 +1001,7 @@ static int sw_step(sw_t *me)
                 me->stt = S_BLOCKED;
                 me->plain = 0;
                 me->claim = 0;
+                me->gen++;
                 EV("\"e\":\"Prim\",\"u\":%d,\"op\":\"resume_suspend_to\",\"t\":%d,\"arg\":0", me->id, b);
                 CHK(CC1(me->id, PK_RESUME_SUSPEND_TO, B->th));
             } else {
@@ -1046,6 +1060,7 @@ static int sw_step(sw_t *me)
                 continue;
             me->plain = 1;
             me->claim = 0;
+            me->gen++;
             EV("\"e\":\"Prim\",\"u\":%d,\"op\":\"suspend\",\"t\":0,\"arg\":0", me->id);
             me->stt = S_BLOCKED;
             CHK(CC1(me->id, PK_SUSPEND, ABT_THREAD_NULL));
@@ -1077,10 +1092,12 @@ static void sw_remote(void *arg)
         for (int i = 1; i <= SWMAX; i++) {
             sw_t *b = &SW[i];
             if (b->stt == S_BLOCKED && b->plain && state_of(b->th) == 2 && sw_claim(b)) {
+                int gen = b->gen;
                 EV("\"e\":\"ResumeCall\",\"by\":-1,\"u\":%d", i);
                 CHK(ABT_thread_resume(b->th));
-                /* the unit may already be running again on the primary stream */
-                __sync_bool_compare_and_swap(&b->stt, S_BLOCKED, S_PARKED);
+                /* the unit may already be running again on the primary stream -- or even be blocked again */
+                if (b->gen == gen)
+                    __sync_bool_compare_and_swap(&b->stt, S_BLOCKED, S_PARKED);
                 EV("\"e\":\"ResumeRet\",\"by\":-1,\"u\":%d", i);
             }
         }
@@ -1265,6 +1282,11 @@ static void scn_xjoin(void)
     for (int i = 0; i < g_xj_n; i++)
         while (g_xj_units[i]->want_resume != 1)
             pause_any(0);
+    /* the stop test reads "pool empty?" and then the blocked counter: hold the
+     * scheduler back between the two reads now and then, so that a resume
+     * (push, decrement) can fall into that window */
+    if (rnd(2))
+        abtv_watch_load(&ABTI_pool_get_ptr(g_pool[1][0])->num_blocked, 40 + rnd(400), 300);
     EV("\"e\":\"XJoinCall\",\"s\":1");
     g_xj_go = 1;
     CHK(ABT_xstream_join(g_xs[1]));
